@@ -29,13 +29,15 @@ def selection_for(rng, zs):
             i = rng.randrange(len(zs) - 1)
             j = rng.randrange(i, min(len(zs), i + 6))
             a, b = zs[i], zs[j]
-            items.append('%s-%s' % (one(a), one(b)))
+            items.append('%s%s-%s%s' % (one(a), rng.choice(['', '', ' ']), rng.choice(['', '', ' ']), one(b)))
             exp.update(range(a, b + 1))
+    # blanks anywhere in a string item are not significant ("H - Li", " 1 , 3 ")
+    items = [(rng.choice(['', ' ']) + x + rng.choice(['', ' '])) if isinstance(x, str) and rng.random() < 0.3 else x for x in items]
     form = rng.randrange(3)
     if form == 0:
         sel = items
     elif form == 1:
-        sel = ','.join(str(x) for x in items)
+        sel = rng.choice([',', ', ', ' ,']).join(str(x) for x in items)
     else:
         sel = [','.join(str(x) for x in items[:2])] + items[2:]
     return sel, exp
